@@ -144,18 +144,29 @@ func cmdCheck(args []string) int {
 		}
 	}
 	sort.Strings(bindingFailures)
+	// C08/C09 are decided by frames: every frame obligation of every function under contract
+	// counts, plus the package-wide sweeps
+	framesProp := P == "C08" || P == "C09"
 	for _, p := range u.contractedFunctions() {
 		c := u.resolveLike(p.c)
-		if !contractMentions(c, P) && !contractMentions(p.c, P) {
+		if !framesProp && !contractMentions(c, P) && !contractMentions(p.c, P) {
 			continue
 		}
 		fc := u.verifyFunction(p.fn, c)
-		fcs = append(fcs, fc)
+		keep := false
 		for _, ob := range fc.obs {
-			if hasTag(ob.Tags, P) {
+			if hasTag(ob.Tags, P) || (framesProp && ob.Kind == "frame") {
 				obs = append(obs, ob)
+				keep = true
 			}
 		}
+		if keep || !framesProp || len(fc.errs) > 0 {
+			fcs = append(fcs, fc)
+		}
+	}
+	var sweeps []sweepResult
+	if framesProp {
+		sweeps = u.runSweeps(u.inlined)
 	}
 	// global facts are obligations discharged by ground evaluation
 	var gfFailed []string
@@ -219,9 +230,21 @@ func cmdCheck(args []string) int {
 	for _, g := range gfFailed {
 		viols = append(viols, violation{name: "globalfact", detail: map[string]interface{}{"obligation": "globalfact", "reason": g}})
 	}
+	for _, sw := range sweeps {
+		n := &namedOb{Name: sw.Name, Func: "package", Kind: "sweep", Clause: sw.Clause, Instances: 1, Backends: map[string]int{}}
+		named[sw.Name] = n
+		order = append(order, sw.Name)
+		if len(sw.Bad) == 0 {
+			n.Backends["ssa-sweep"]++
+			continue
+		}
+		n.Failed = append(n.Failed, nil)
+		viols = append(viols, violation{name: sw.Name, detail: map[string]interface{}{
+			"obligation": sw.Name, "clause": sw.Clause, "kind": "sweep", "offenders": sw.Bad}})
+	}
 	for _, name := range order {
 		n := named[name]
-		if len(n.Failed) == 0 {
+		if len(n.Failed) == 0 || n.Kind == "sweep" {
 			continue
 		}
 		ob := n.Failed[0]
